@@ -42,7 +42,7 @@ def run(ctx):
     ctx.floor("R-C04-1", 4)
     ctx.floor("R-C04-N", 30)
     ctx.floor("R-C04-2", 30 + 15 + 2)
-    ctx.floor("R-C04-4", 12)
+    ctx.floor("R-C04-4", 30)
     ctx.floor("R-C04-5", 30 + 2)
     ctx.floor("R-C04-6", 30)
     ctx.floor("R-C04-7", 30 * 7)
@@ -143,11 +143,26 @@ def rule_rejections(ctx, mod, table):
         for label, s in _malformed(table):
             try:
                 paths = paths_of(ctx.repo, fi, [s])
+
+                def twice(it, fi=fi, s=s):
+                    from ..engine.absint import RaiseEx
+                    out = []
+                    for _ in range(2):
+                        try:
+                            out.append(("return", it.call_function(fi, [s], {})))
+                        except RaiseEx as r:
+                            out.append(("raise", r.exc))
+                    return out
+                again = explore(lambda ch: Interp(ctx.repo, ch), twice)
             except CannotDecide as e:
                 raise AnalysisError("%s(<%s>): %s" % (fname, label, e))
             ok = bool(paths) and all(q.kind == "raise" and q.value == "NoteFormatError" for q in paths)
             ctx.check(ok, R, "%s.rejects[%s]" % (fname, label), fi.where(), "%s(<%s>)" % (fname, label),
                       "unknown key (%s) gives %s instead of NoteFormatError" % (label, [(q.kind, q.value) for q in paths]))
+            ok2 = bool(again) and all(q.kind == "return" and all(o == ("raise", "NoteFormatError") for o in q.value) for q in again)
+            ctx.check(ok2, R, "%s.rejects-again[%s]" % (fname, label), fi.where(), "%s(<%s>) asked twice" % (fname, label),
+                      "the second request for the same unknown key (%s) gives %s: a failed lookup must not leave an entry in the memo" % (
+                          label, [q.value for q in again][:2]))
     fv = mod.func("is_valid_key")
     for label, s in _malformed(table):
         paths = paths_of(ctx.repo, fv, [s])
